@@ -560,6 +560,11 @@ func (ev *evalCtx) callSpecFun(fd *FunDecl, args []Term) Term {
 		ev.fail("%s expects %d arguments, got %d", fd.Name, len(fd.Params), len(args))
 	}
 	if fd.Inline {
+		saved := c.home
+		if h := ev.tr.eng.homeOf(fd.Where); h != nil {
+			c.home = h
+		}
+		defer func() { c.home = saved }()
 		n := *ev
 		n.env = map[string]Term{}
 		n.names = nil
